@@ -136,6 +136,37 @@ fn edge_ints(max: i64, rng: &mut Rng) -> Vec<String> {
     v
 }
 
+fn bytes_in_range<I: Iterator<Item = RawShortMessage>>(it: I) -> bool {
+    it.fold(true, |ok, x| ok && x.data_byte_1().get() <= 127 && x.data_byte_2().get() <= 127 && x.status_byte() >= 0x80)
+}
+
+/// None: the input does not deserialize (nothing to check).  Some(ok): it does; ok = every byte of both encodings and
+/// every field read back lies in its documented range (a panic while encoding counts as not ok).
+pub fn deserialized_pn_in_range(c: &str, n: &str, v: &str, r: &str, b: &str, d: &str) -> Option<bool> {
+    let dt = match d.parse::<i64>() { Ok(i) if (0..3).contains(&i) => json!(DT[i as usize]), _ => return None };
+    let j = json!({ "channel": num(c)?, "number": num(n)?, "value": num(v)?, "is_registered": boolv(&num(r)?),
+                    "is_14_bit": boolv(&num(b)?), "data_type": dt });
+    let m = serde_json::from_value::<ParameterNumberMessage>(j).ok()?;
+    let r = std::panic::catch_unwind(|| {
+        let a: [Option<RawShortMessage>; 4] = m.to_short_messages(DataEntryByteOrder::MsbFirst);
+        let b: [Option<RawShortMessage>; 4] = m.to_short_messages(DataEntryByteOrder::LsbFirst);
+        bytes_in_range(a.iter().flatten().cloned()) && bytes_in_range(b.iter().flatten().cloned())
+            && m.channel().get() <= 15 && m.number().get() <= 16383 && m.value().get() <= 16383
+    });
+    Some(r.unwrap_or(false))
+}
+
+pub fn deserialized_cc14_in_range(c: &str, mm: &str, v: &str) -> Option<bool> {
+    let j = json!({ "channel": num(c)?, "msb_controller_number": num(mm)?, "value": num(v)? });
+    let m = serde_json::from_value::<ControlChange14BitMessage>(j).ok()?;
+    let r = std::panic::catch_unwind(|| {
+        let a: [RawShortMessage; 2] = m.to_short_messages();
+        bytes_in_range(a.iter().cloned()) && m.channel().get() <= 15 && m.msb_controller_number().get() <= 127
+            && m.lsb_controller_number().get() <= 127 && m.value().get() <= 16383
+    });
+    Some(r.unwrap_or(false))
+}
+
 pub fn lines(out: &mut Out, seed: u64, tier: &str) {
     let mut rng = Rng(seed ^ 0x5E2DE);
     let mut n = 0u64;
@@ -157,6 +188,17 @@ pub fn lines(out: &mut Out, seed: u64, tier: &str) {
     for c in ch { for nn in nums { for v in vals { for r in ["0", "1", "2"] { for b in ["0", "1", "2"] { for d in ["0", "1", "2", "3"] {
         out.req(&format!("de pn {} {} {} {} {} {}", c, nn, v, r, b, d)); n += 1;
     } } } } } }
+    // C04 in the serde configuration: whatever deserializes must encode to in-range data bytes (and read back in-range fields)
+    for c in ["0", "15"] { for nn in ["0", "16383"] { for v in vals { for r in ["0", "1"] { for b in ["0", "1"] { for d in ["0", "1", "2"] {
+        if let Some(ok) = deserialized_pn_in_range(c, nn, v, r, b, d) {
+            out.oracle("c04-deserialized-pn-encodes-in-range", &format!("c={} n={} v={} r={} b={} d={}", c, nn, v, r, b, d), ok); n += 1;
+        }
+    } } } } } }
+    for c in ["0", "15"] { for m in 0i64..=130 { for v in ["0", "127", "128", "16383"] {
+        if let Some(ok) = deserialized_cc14_in_range(c, &m.to_string(), v) {
+            out.oracle("c04-deserialized-cc14-encodes-in-range", &format!("c={} m={} v={}", c, m, v), ok); n += 1;
+        }
+    } } }
     for p in -1i64..=8 { for a in -1i64..=17 { for b in -1i64..=4 { out.req(&format!("de qf {} {} {}", p, a, b)); n += 1; } } }
     let f = ["-1", "0", "5", "15", "16", "127", "128", "16383", "16384"];
     for v in -1i64..=23 { for f1 in f { for f2 in f { for f3 in ["0", "3", "127", "128"] { out.req(&format!("de str {} {} {} {}", v, f1, f2, f3)); n += 1; } } } }
